@@ -21,7 +21,7 @@ ASSUMPTIONS = ["nvmon.ref exact reference model for the input points; cos/sin of
 FLOORS = {'quick': {'mapped-point': 3000, 'weights-unchanged': 150, 'inplace-semantics': 300, 'aggregate': 100},
           'thorough': {'mapped-point': 30000}}
 MANDATORY_TAGS = ['translate', 'rotate', 'scale', 'container', 'single', 'inplace', 'copy', 'rational', 'axis0', 'axis1', 'axis2',
-                  'dim2', 'pdim3', 'read-before-inplace']
+                  'dim2', 'pdim3', 'read-before-inplace', 'null-map']
 TECHNIQUE = ("runtime monitoring: exact reference points of the input mapped by the exact affine map vs library evaluation of the "
              "result, plus object-identity / input-digest checks, under a seeded workload incl. containers")
 LEVEL_TEXT = ("Each transform call is judged at probe parameters on every element against the mapped exact points of the input and "
@@ -61,14 +61,15 @@ def check(case, ctx):
     op = case['op']
     if op == 'translate':
         vec = [rng.choice([0.0, 1.0, -2.5, rng.uniform(-10, 10)]) for _ in range(dim)]
-        if not any(vec):
-            vec[0] = 1.5
+        if rng.random() < 0.12:
+            vec = [rng.choice([0, 0.0]) for _ in range(dim)]      # the identity map is a translation too
+            ctx.tag('null-map')
         maps = [lambda x, vec=vec: [a + F(b) for a, b in zip(x, vec)]]
         args, kw = (vec,), {}
-        nontrivial_map = True
+        nontrivial_map = any(vec)
         outscale = sc + max(abs(v) for v in vec)
     elif op == 'scale':
-        m = rng.choice([-1.5, 0.5, 2, 3, rng.uniform(0.1, 4)])
+        m = rng.choice([-1.5, 0.5, 2, 3, 1, 1.0, rng.uniform(0.1, 4)])
         maps = [lambda x, m=m: [a * F(m) for a in x]]
         args, kw = (m,), {}
         nontrivial_map = m != 1
@@ -119,6 +120,8 @@ def check(case, ctx):
                   what='inplace-semantics')
         ctx.check([G.snapshot(e) for e in elems] == before, 'copy/input-modified', '%s(inplace=False) modified its input' % op,
                   what='inplace-semantics')
+    if not case['inplace'] and res is obj:
+        return
     relems = list(res) if case['container'] else [res]
     if not ctx.check(len(relems) == len(elems), 'result/element-count', 'result has %d elements, input %d' % (len(relems), len(elems)),
                      what='inplace-semantics'):
